@@ -29,7 +29,7 @@ CLAIMED = {
  "C14": C("CrossHair confirms four contracts (split/join, len, items, alphabet) over all paths for arbitrary Unicode strings of length <=8; pathsym repeats split/join/len on well-formed strings built structurally with symbolic bodies and checks that encoder outputs are well formed and consumed token for token by the decoder.", "6/C14",
           technique="CrossHair 0.0.110 (symbolic execution of the real functions with z3, 'Confirmed over all paths') + pathsym symbolic execution; counterexamples replayed on the pristine package"),
  "C15": C("selfies_to_encoding / encoding_to_selfies / batch functions with the vocabulary bijection (2n of n!), the string (<=3/4 symbols over three vocabularies), the pad length and enc_type symbolic: lengths, entries, one-hot rows, both inverse directions, error clauses, batch = element-wise.", "6/C15"),
- "C16": C("get_selfies_from_index / get_index_from_selfies with n symbolic below 16^3 (16^5 thorough), _read_index_from_selfies with 1-3 requested and 0-3 available free symbols, and ring target / branch extent through selfies.decoder with free (also truncated) indices, against the documented digit table.", "6/C16"),
+ "C16": C("get_selfies_from_index / get_index_from_selfies with n symbolic below 16^3 (16^4 thorough), _read_index_from_selfies with 1-3 requested and 0-3 available free symbols, and ring target / branch extent through selfies.decoder with free (also truncated) indices, against the documented digit table.", "6/C16"),
  "C17": C("decoder and encoder with and without attribute on every string of N symbols / tokens and on templates with nested branches, rings and several fragments: same translation, every entry's token at the reported output index, every contributing token equal to the (still symbolic) input symbol at the reported position, every atom attributed to its creator.", "6/C17"),
  "C18": C("decoder(x, compatible=True) versus decoder(independently modernised x) versus decoder(x) on every string of N<=3/5 symbols over two legacy alphabets, all 21 legacy branch/ring symbols after a chain and at a high state.", "6/C18"),
 }
